@@ -52,6 +52,8 @@ package openapi3
 //@   assuming @C20 refNameResolver != nil
 //@   modifies *
 //@   modifies inheritedExternal
+//@   modifies lastRewrittenHeader
+//@   records lastRewrittenHeader := ptr(h)
 //@   records inheritedExternal := parentIsExternal
 //@   ensures [internal-left-alone] h == nil || !extRef(old(h.Ref), parentIsExternal) ==> !result && (h != nil ==> h.Ref == old(h.Ref))
 //@   ensures [becomes-internal] h != nil && extRef(old(h.Ref), parentIsExternal) && !(old(doc.Components) != nil && old(has(doc.Components.Headers, refName(doc, ptr(h)))) && old(doc.Components.Headers[refName(doc, ptr(h))]) == h) ==> result && h.Ref == concat("#/components/headers/", refName(doc, ptr(h))) && doc.Components != nil && has(doc.Components.Headers, refName(doc, ptr(h)))
@@ -185,9 +187,19 @@ package openapi3
 //@   option safety-tags none
 //@   tag C16
 // the other descent functions: frames only (they may run derefSchema, which resets the ghost)
+// every header of the map is rewritten (addHeaderToSpec) before anything else is asked about it: the
+// visited set only cuts the descent into a header's value, never the rewriting of a reference to it
+// (two references to one external header share the value)
+//@ ghost var lastRewrittenHeader ref
+//@ func (*T).isVisitedHeader
+//@   modifies doc.visited.header
 //@ func (*T).derefHeaders
+//@   requires doc != nil
 //@   modifies *
-//@   modifies inheritedExternal
+//@   modifies inheritedExternal, lastRewrittenHeader
+//@   atcall @C16 (*T).isVisitedHeader [rewritten-before-the-visited-check] arg_h == cast(lastRewrittenHeader, type *HeaderRef).Value
+//@   option safety-tags none
+//@   tag C16
 //@ func (*T).derefExamples
 //@   modifies *
 //@   modifies inheritedExternal
